@@ -58,16 +58,19 @@ fn machinery(msg: &str) -> ! {
     std::process::exit(2);
 }
 
-// TensorStore::new() zero-fills tens of MB (embedding slab); a cleared store is reused instead.
-// `clear()` is the real code and the emptiness of the cleared store is asserted.
+// TensorStore::new() zero-fills tens of MB (embedding slab) and TensorStore::clear() re-maps a 64 MB
+// blob-log segment (mmap/munmap serialises the worker threads), so a store is reused after deleting
+// every key the blob layer wrote, through the real TensorStore::delete; emptiness is asserted.
 thread_local! { static POOL: RefCell<Vec<TensorStore>> = const { RefCell::new(Vec::new()) }; }
 
 fn take_store() -> TensorStore {
     match POOL.with(|p| p.borrow_mut().pop()) {
         Some(st) => {
-            st.clear();
-            if !st.scan("").is_empty() || !st.is_empty() {
-                machinery("TensorStore::clear() left entries behind");
+            for k in st.scan("_blob:") {
+                let _ = st.delete(&k);
+            }
+            if !st.is_empty() || !st.scan("_").is_empty() {
+                machinery("recycled TensorStore is not empty");
             }
             st
         }
@@ -1214,6 +1217,7 @@ fn replay_e1(rep: &mut Report, name: &str, choices: &[usize], selftest: &'static
     let (bodies, check) = build(&scn, selftest);
     let r = vsched::run(choices, bodies);
     eprintln!("  schedule (thread per step): {:?}", r.thread_schedule());
+    eprintln!("  (thread, lock#, kind) per step: {:?}", r.trace.iter().map(|s| (s.order[s.choice], s.op)).collect::<Vec<_>>());
     if let Some(m) = &r.machinery {
         machinery(m);
     }
